@@ -4,7 +4,7 @@
    CENTRED data (what np.dot(values.T, values) works on). *)
 From Coq Require Import List Reals Permutation QArith.
 From FDAV Require Import Base.Num Base.Vec Base.Quad Model.Stats Gen.Consts
-  Lemmas.Vec Lemmas.Gram Lemmas.Stats Lemmas.NoiseConst.
+  Lemmas.Vec Lemmas.Gram Lemmas.Stats Lemmas.NoiseConst Lemmas.CovPerm.
 Import ListNotations.
 Local Open Scope R_scope.
 
@@ -30,9 +30,18 @@ Theorem C09_cov_psd : forall n k Ct c, (2 <= k)%nat -> Forall (fun r => length r
   0 <= dot opsR c (mv opsR (cov_of_cols opsR k Ct) c).
 Proof. exact cov_psd. Qed.
 Print Assumptions C09_cov_psd.
-(* C09_cov_perm_partial: independence of the covariance from the order of the observations is
-   proved for the mean only (C09_mean_perm); for the covariance it is checked by the
-   correspondence run and the permutation monitor, not proved. *)
+(* ... and independent of the order of the observations *)
+Theorem C09_cov_entry_rows : forall m X s t, Forall (fun r => length r = m) X -> (2 <= length X)%nat ->
+  (s < m)%nat -> (t < m)%nat ->
+  ent (cov opsR m X) s t =
+  vsum opsR (map (fun r => nth s r 0 * nth t r 0) (center opsR m X)) / INR (length X - 1).
+Proof. exact cov_entry_rows. Qed.
+Print Assumptions C09_cov_entry_rows.
+Theorem C09_cov_perm : forall m X X' s t, Permutation X X' -> Forall (fun r => length r = m) X ->
+  (2 <= length X)%nat -> (s < m)%nat -> (t < m)%nat ->
+  ent (cov opsR m X) s t = ent (cov opsR m X') s t.
+Proof. exact cov_perm_entry. Qed.
+Print Assumptions C09_cov_perm.
 
 (* smoothed covariances remain symmetric because symmetrisation is applied LAST: it makes
    any matrix symmetric and leaves a symmetric one unchanged *)
